@@ -8,6 +8,7 @@ package circl_test
 // makes the check vacuous (driver exit 2), as does a stale id (registry rot).
 
 import (
+	"encoding/json"
 	"fmt"
 	"go/ast"
 	"go/parser"
@@ -31,6 +32,18 @@ var c10Exempt = map[string]string{
 	"hpke.Sender.SetupPSK":                 "sender side: psk / pskID are the caller's own secrets, nothing received from the peer is parsed",
 	"hpke.Sender.SetupAuthPSK":             "sender side: psk / pskID are the caller's own secrets, nothing received from the peer is parsed",
 	"oprf.PartialObliviousClient.Finalize": "the only byte argument is the public `info` string chosen by the application (hashed to a scalar, never parsed); the server's Evaluation is a typed struct whose byte decoders (group elements / scalars, dleq.Proof) have their own rows",
+}
+
+// c10Discovered is set by a file that /verif/tools/c10gen generates at check time (checks.d "pregen") when
+// the tree under test has entry points without a registry row: id -> "driven:<unit>" (a generated unit
+// TestVerifC10_<unit> in that package drives it with the generic alphabet) or "skipped: <reason>".
+var c10Discovered map[string]string
+
+// c10RegistryFile is read by the generator (covered ids + exemptions); this unit writes it when
+// VERIF_C10_WRITE_REGISTRY=1 and notes when it is out of date.
+type c10RegistryFile struct {
+	Covered []string          `json:"covered"`
+	Exempt  map[string]string `json:"exempt"`
 }
 
 func c10TypeStr(e ast.Expr) string {
@@ -173,7 +186,7 @@ func TestVerifC10_completeness(t *testing.T) {
 	defer r.Finish()
 	r.Rule("go/ast walk over the tree under test: exported functions named Unmarshal*/SetBytes/FromBytes/SetString/Import/Unpack*/Verify*/Decapsulate/AuthDecapsulate/Setup*/Open/Decrypt*/FromString/" +
 		"ExtractFromCiphertext/CouldDecrypt/Parse*/Aggregate/Finalize/BlindSign/Round3Receiver/CombineSignShares with a []byte / string parameter and an error or bool result; " +
-		"each must be entered by a registry row or be exempted with a reason; a case = one such function")
+		"each must be entered by a registry row, be exempted with a reason, or be driven by a unit that tools/c10gen generates for it at check time (generic alphabet); a case = one such function")
 	root := os.Getenv("VERIF_REPO")
 	if root == "" {
 		root = "/repo"
@@ -190,7 +203,7 @@ func TestVerifC10_completeness(t *testing.T) {
 		}
 	}
 	known := map[string]bool{}
-	var missing, internalOnly, exempted []string
+	var missing, internalOnly, exempted, driven []string
 	nPublic, nCovered := 0, 0
 	for _, f := range funcs {
 		known[f.id] = true
@@ -209,16 +222,25 @@ func TestVerifC10_completeness(t *testing.T) {
 		case f.internal:
 			internalOnly = append(internalOnly, f.id)
 			r.Outcome("internal-not-public-api")
+		case strings.HasPrefix(c10Discovered[f.id], "driven:"):
+			// no hand-written row, but a generated unit drives it in this very run: its violations are
+			// reported under C10|<id>#discovered|..., its coverage under unit discovered_<id>
+			driven = append(driven, f.id+" "+f.sig+" -> unit "+strings.TrimPrefix(c10Discovered[f.id], "driven:"))
+			r.Outcome("discovered-and-driven-generically")
 		default:
-			missing = append(missing, f.id+" "+f.sig)
+			why := c10Discovered[f.id]
+			if why == "" {
+				why = "not seen by the generator (pregen step not run?)"
+			}
+			missing = append(missing, f.id+" "+f.sig+" ["+why+"]")
 			r.Outcome("MISSING")
 		}
 		if !f.internal {
 			nPublic++
 		}
 	}
-	// stale ids: only ids that look like entry points are checked against the walk (rows may also
-	// name helper functions that do not match the pattern; those are checked for existence loosely)
+	// stale ids (a row or an exemption names a function that no longer exists, e.g. after a rename in the
+	// tree): informational - the renamed function shows up above as discovered / missing
 	var stale []string
 	all, _ := c10ListAllFuncs(root)
 	for c := range covered {
@@ -232,22 +254,44 @@ func TestVerifC10_completeness(t *testing.T) {
 		}
 	}
 	sort.Strings(stale)
+	// registry data file of the generator
+	reg := c10RegistryFile{Exempt: c10Exempt}
+	for c := range covered {
+		reg.Covered = append(reg.Covered, c)
+	}
+	sort.Strings(reg.Covered)
+	vdir := os.Getenv("VERIF_DIR")
+	if vdir == "" {
+		vdir = "/verif"
+	}
+	regPath := filepath.Join(vdir, "tools/c10gen/registry.json")
+	want, _ := json.MarshalIndent(reg, "", " ")
+	want = append(want, '\n')
+	if os.Getenv("VERIF_C10_WRITE_REGISTRY") != "" {
+		if err := os.WriteFile(regPath, want, 0o644); err != nil {
+			t.Fatalf("write %s: %v", regPath, err)
+		}
+	}
+	if have, err := os.ReadFile(regPath); err != nil || string(have) != string(want) {
+		r.Set("registry_json_out_of_date", "tools/c10gen/registry.json differs from the rows' Covers; regenerate with VERIF_C10_WRITE_REGISTRY=1 (consequence: the generator may drive an entry point that also has a row, or leave a new one to this unit's MISSING list)")
+	}
 	r.Count("entry_points_found", len(funcs))
 	r.Count("public_entry_points", nPublic)
 	r.Count("covered_by_rows", nCovered)
 	r.Count("exempted", len(exempted))
 	r.Count("internal_not_covered", len(internalOnly))
+	r.Count("discovered_and_driven", len(driven))
+	r.Count("stale_ids", len(stale))
 	r.Count("registry_rows", len(rows))
 	r.Set("exemptions", c10Exempt)
 	r.Set("internal_functions_not_entered_directly", internalOnly)
+	r.Set("discovered_and_driven", driven)
 	r.Set("missing", missing)
 	r.Set("stale", stale)
 	r.RequireCounter("entry_points_found", 150)
 	r.RequireCounter("registry_rows", 150)
 	if len(missing) > 0 {
-		r.Vacuous(fmt.Sprintf("%d exported entry points are neither in the registry nor exempted: %s", len(missing), strings.Join(missing, "; ")))
-	} else if len(stale) > 0 {
-		r.Vacuous("stale registry ids: " + strings.Join(stale, "; "))
+		r.Vacuous(fmt.Sprintf("%d exported entry points are neither entered by a registry row, nor exempted, nor drivable generically: %s", len(missing), strings.Join(missing, "; ")))
 	}
 }
 
